@@ -130,10 +130,17 @@ func (it *NativeIterator) Merge(oldval []byte) (val []byte, err error) {
 		// Current LMDB value has a higher timestamp, so keep that one
 		return oldval, nil
 	}
-	if newTS == oldTS && bytes.Compare(actualOldVal, entryVal) <= 0 {
+	if newTS == oldTS {
 		// Same timestamp, lexicographic lower app value wins for deterministic values,
 		// so return the old value if the plain value was lower or equal.
-		return oldval, nil
+		// If the values are equal, a deletion wins over a live (empty) value, so
+		// that the result does not depend on the order in which they are merged.
+		cmp := bytes.Compare(actualOldVal, entryVal)
+		newDeleted := entry.MaskedFlags().IsDeleted() ||
+			(len(entryVal) == 0 && it.FormatVersion < 2) // see addHeader
+		if cmp < 0 || (cmp == 0 && (h.Flags.IsDeleted() || !newDeleted)) {
+			return oldval, nil
+		}
 	}
 	// Update LMDB value
 	return it.addHeader(entryVal, newTS, entry.MaskedFlags(), false)
